@@ -239,7 +239,7 @@ func checkC07(r *kit.Run) {
 			}
 		}
 	})
-	if canary == 0 || caught != canary {
+	if (canary == 0 && r.Violations() == 0) || caught != canary {
 		r.Fatal("canary: %d of %d altered texts noticed", caught, canary)
 	}
 	r.Set("evaluations", int(printed))
